@@ -354,6 +354,12 @@ EXPLANATION = (
 )
 ASSUMPTIONS = ['DefineUse/ReachingDefs facts are sound (C13)', 'the interpreter evaluates folded operations correctly (C04)']
 
+def _d1_partial_eval(ctx: Ctx):
+    # what `simplify` folds is what PartialEval reports; the phi handling of that analysis is decided in c13
+    from .c13 import d2_partial_eval
+    d2_partial_eval(ctx)
+
+
 RULES = [
     Rule('C07.G1', 'copy propagation consults the reaching definition of the source; substitution keyed by definition', g1_copy_propagation, 6, 'G'),
     Rule('C07.G2', 'list values are recorded / materialised only with a store-or-alias fact', g2_heap_values, 2, 'G,S'),
@@ -361,11 +367,16 @@ RULES = [
     Rule('C07.X1', 'purity defaults: unknown, foreign, impure callees and parameter stores are impure', x1_purity, 9, 'X'),
     Rule('C07.G4', 'folding only under a statically known context; constructors under REAL', g4_fold_context, 11, 'G'),
     Rule('C07.T1', 'literal forms of folded values are exact; fold keyed by expression; simplify iterates to a fixed point', t1_literal_forms, 11, 'T'),
+    Rule('C07.D1', 'constants at merges and loop heads: both operands met, an unknown operand is top, loops iterated until stable (= C13.D2, partial evaluation)', _d1_partial_eval, 12, 'D'),
 ]
 
 from ..selftest import Mutant  # noqa: E402
 
 MUTANTS = [
+    Mutant('constants-merge-signed-zeros', 'fpy2/analysis/partial_eval.py', "        return a if _same_constant(a, b) else _TOP", "        return a if a == b else _TOP", 'C07.D1',
+           'finding F30 before its repair'),
+    Mutant('unknown-loop-entry-is-the-unit', 'fpy2/analysis/partial_eval.py', "                lhs = self.by_def.get(self.def_use.defs[phi.lhs], _TOP)\n                rhs = self.by_def.get(self.def_use.defs[phi.rhs], _TOP)\n                new",
+           "                lhs = self.by_def.get(self.def_use.defs[phi.lhs])\n                rhs = self.by_def.get(self.def_use.defs[phi.rhs], _TOP)\n                new", 'C07.D1', 'seeded change C07a'),
     Mutant('copy-prop-checks-source (repair twin)', COPY,
            "                if len(def_use.uses[d]) > 0:\n                    # optimization: only propagate if there is at least one use\n                    prop[d] = d.site.expr",
            "                src = def_use.find_def_from_use(d.site.expr)\n                if len(def_use.uses[d]) > 0 and all(def_use.reach[u][src.name] is src for u in ()):\n                    prop[d] = d.site.expr",
